@@ -91,11 +91,8 @@ def handle : Handler := fun kind a =>
         | some v => pure (okVals (if keep == 0 then "num" else fmtNats (arr.shape.map (fun _ => 1))) [v])
         | none => pure "ub"
       | some ax =>
-        let dim := arr.shape.length
-        let axn : Nat := if ax < 0 then (dim - (-ax).toNat) else ax.toNat
-        let outShape := if keep == 0 then arr.shape.eraseIdx axn else keepShape arr.shape axn
-        match simdReduceAxis N (List.zipWith f) f (identityOf opn) arr ax with
-        | some out => pure (okVals (fmtNats outShape) out)
+        match simdReduceAxisK N (List.zipWith f) f (identityOf opn) arr ax (keep != 0) with
+        | some (outShape, out) => pure (okVals (fmtNats outShape) out)
         | none => pure "ub"
   | "c12.matmul" => orBad do
       let N ← a.nat "lanes"
@@ -103,9 +100,17 @@ def handle : Handler := fun kind a =>
       let rs ← a.nats "rshape"
       let ld ← a.ints "ldata"
       let rd ← a.ints "rdata"
+      -- default layouts: the pair `eval_matmul` itself accepts (row-major lhs, column-major rhs)
+      let l : NDA Int := { shape := ls, colMajor := (a.get? "llayout") == some "col", data := ld }
+      let r : NDA Int := { shape := rs, colMajor := (a.get? "rlayout") != some "row", data := rd }
       match ls, rs with
       | [M, K], [_, Nn] =>
-        match simdMatmul N (fun x y z => x * y + z) (· + ·) 0 ld rd M K Nn (List.replicate (M * Nn) 0) with
+        -- `fallback=1`: the layout test of operator() on the lhs is effective (tree after
+        -- fixes/C12-matmul-lhs-layout-fallback.diff); absent / 0: the tree as it is (`matmulLhsFallbackEffective`)
+        let fb := (a.get? "fallback") == some "1" || matmulLhsFallbackEffective
+        if !(fb && l.colMajor) && !r.colMajor then pure "unsupported"      -- static_assert in eval_matmul: not a program
+        else
+        match simdEvalMatmulWith fb N (fun x y z => x * y + z) (· * ·) (· + ·) 0 l r M K Nn (List.replicate (M * Nn) 0) with
         | some out => pure (okVals (fmtNats [M, Nn]) out)
         | none => pure "ub"
       | _, _ => none
